@@ -10,6 +10,7 @@ import BiotiteModel.Proofs.C10Iter
 import BiotiteModel.Proofs.C10Cached
 import BiotiteModel.Proofs.C10Eq
 import BiotiteModel.Proofs.C10Score
+import BiotiteModel.Proofs.C10Api
 import BiotiteModel.Gen.C10
 /-!
 # C10 — property theorems (k-mer index tables and selectors)
@@ -454,6 +455,39 @@ theorem C10_similar_kmers_rowmax (a : KAlph) (hk : 1 ≤ a.k) (mat : List Int) (
   rw [C10_similar_kmers a.n (matDim mat) mat _ thr
       (fun x y hy => rowMax_bound (matDim mat) mat x y (by omega)) _ hne, splitCode_length]
 
+/-- **`select(sequence, alphabet_check)`** of the minimizer, min-code and (cached) syncmer selectors only
+answers when the alphabet test passes (check switched off, or the selector's alphabet extends the
+sequence's), and then it is `select_from_kmers` on `create_kmers(sequence)` — so the theorems about
+`select_from_kmers` (`C10_minimizer_select`, `C10_mincode`) carry over to `select`. -/
+theorem C10_select_sequence (a : KAlph) (w c : Nat) (p : Perm) (qa : QAlph) (chk : Bool) (seq : List Nat)
+    (l : List (Nat × Nat)) :
+    (minimizerSelectSeq a w p qa chk seq = .ok l →
+      selectGuard a qa chk = true ∧ ∃ ks, createKmers a seq = .ok ks ∧ minimizerSelect w p ks = .ok l) ∧
+    (mincodeSelectSeq a c p qa chk seq = .ok l →
+      selectGuard a qa chk = true ∧ ∃ ks, createKmers a seq = .ok ks ∧ mincodeSelect a c p ks = .ok l) ∧
+    (∀ s offsets cached, syncmerSelectSeq a.n a.k s p offsets cached qa chk seq = .ok l →
+      selectGuard ⟨a.n, a.k, none⟩ qa chk = true) :=
+  ⟨minimizerSelectSeq_ok a w p qa chk seq l, mincodeSelectSeq_ok a c p qa chk seq l,
+   fun s offsets cached h => syncmerSelectSeq_ok a.n a.k s p offsets cached qa chk seq l h⟩
+
+/-- `kmer in table` (direct table): true iff some stored entry has that k-mer. -/
+theorem C10_contains (a : KAlph) (nb : Nat) (items : List Entry) (q : Nat) (hq : q < nb) :
+    tableHas (canonTable a false nb items) q = .ok (items.any fun e => e.kmer == q) :=
+  tableHas_canon a nb items q hq
+
+/-- `split` and `encode`/`fuse` are inverse on valid k-mer codes: `split` yields `k` valid symbols
+whose positional value is the code again. -/
+theorem C10_split_encode (a : KAlph) (hn : 0 < a.n) (q : Nat) (hq : q < a.size) :
+    ∃ ds, splitChecked a q = .ok ds ∧ encodeChecked a ds = .ok q ∧ ds.length = a.k ∧ ∀ d ∈ ds, d < a.n := by
+  obtain ⟨h1, h2, h3⟩ := fuse_split a.n hn a.k q hq
+  obtain ⟨ds, hs, he⟩ := encode_split a hn q hq
+  have : ds = splitCode a.n a.k q := by
+    have hq' : ¬ q ≥ a.size := by omega
+    simp only [splitChecked, hq', if_false, Except.ok.injEq] at hs
+    exact hs.symm
+  subst this
+  exact ⟨_, hs, he, h2, h3⟩
+
 /-- Syncmer filter: index `i` is selected iff the relative position of its minimum s-mer is one of
 the (normalised) offsets. -/
 theorem C10_syncmer_filter (offs : List Nat) (rel : List Int) (i : Nat) :
@@ -571,5 +605,11 @@ example : bbSim ⟨2, 2, none⟩ [1, 0, 0, 1] 1 2 = [0, 2, 3] ∧ scoreSim ⟨2,
 example : kalphEq ⟨2, 2, none⟩ ⟨2, 2, some [0, 2]⟩ = false ∧ kalphEq ⟨2, 2, some [0, 2]⟩ ⟨2, 2, none⟩ = false := by decide
 example : matchSeqQ (canonTable ⟨4, 2, none⟩ false 16 [⟨1, 0, 0⟩]) .foreign [0, 1, 2] none = .error .valueError ∧
     matchSeqQ (canonTable ⟨4, 2, none⟩ false 16 [⟨1, 0, 0⟩]) (.pre 3) [0, 1, 2] none = .ok [(0, 0, 0)] := by decide
+
+example : minimizerSelectSeq ⟨2, 2, none⟩ 2 .ident .foreign true [0, 1, 1, 0] = .error .valueError ∧
+    minimizerSelectSeq ⟨2, 2, none⟩ 2 .ident .foreign false [0, 1, 1, 0] = .ok [(0, 1), (2, 2)] := by decide
+example : tableHas (canonTable ⟨2, 2, none⟩ false 4 [⟨1, 0, 0⟩]) 1 = .ok true ∧
+    tableHas (canonTable ⟨2, 2, none⟩ false 4 [⟨1, 0, 0⟩]) 2 = .ok false := by decide
+example : splitChecked ⟨4, 3, none⟩ 27 = .ok [1, 2, 3] ∧ encodeChecked ⟨4, 3, none⟩ [1, 2, 3] = .ok 27 := by decide
 
 end BiotiteModel.C10
